@@ -53,7 +53,8 @@ def make_case(family, i, rng, tier):
              'how': rng.choice(['eof', 'rst'])}
         if e['kind'] == 'abandoned':
             e['at'] = rng.randrange(0, 8)
-            e['mech'] = rng.choice(['break', 'raise', 'close'])
+            e['mech'] = rng.choice(['break', 'raise', 'close', 'rebind',
+                                    'rebind'])
         prev.append(e)
     compress = rng.random() < 0.6 or any(
         e['kind'] in ('mid_compressed', 'inflate_error', 'sent_compressed')
